@@ -53,8 +53,23 @@ struct DecAt {
     want: f64,
 }
 
-/// Decode `tri` (N x 1, 4:4:4) and compare with the oracle. Returns worst error.
-fn decode_check<T: Pixel>(
+/// Decode `tri` as N x 1 4:4:4 frames and compare with the oracle. A long slice is presented as three frames:
+/// one whose width is a multiple of 64 (plane stride == width), one of odd width (vector tails), one tiny.
+fn decode_check<T: Pixel>(ci: usize, cfg: (MC, bool, u8), tri: &[[u32; 3]], worst: &mut Worst<DecAt>, stats: &DecStats, mut roundtrip: Option<&mut RtStats>) {
+    if tri.len() < 256 {
+        return decode_check_one::<T>(ci, cfg, tri, worst, stats, roundtrip);
+    }
+    let a = (tri.len() / 2) & !63;
+    let rest = tri.len() - a;
+    let b = a + rest - 1 - (rest % 2); // odd-length middle part
+    for part in [&tri[..a], &tri[a..b], &tri[b..]] {
+        if !part.is_empty() {
+            decode_check_one::<T>(ci, cfg, part, worst, stats, roundtrip.as_deref_mut());
+        }
+    }
+}
+
+fn decode_check_one<T: Pixel>(
     ci: usize,
     (m, full, n): (MC, bool, u8),
     tri: &[[u32; 3]],
@@ -406,14 +421,19 @@ fn layout_stratum(ctx: &Ctx, roundtrip: bool) {
         let ci = a as usize;
         let (m, full, n) = cfgs[ci];
         let mut rng = Rng::new(ctx.seed, 0x1A70_0000 + a);
-        let (w, h) = (36usize, 8usize);
         let maxc = 1u64 << n;
         let mut lw = Worst::new();
-        for ss in sss {
+        for (ssi, ss) in sss.into_iter().enumerate() {
             if roundtrip && ss != (0, 0) {
                 continue;
             }
-            for pad in pads {
+            for (pi, pad) in pads.into_iter().enumerate() {
+                // mostly 36x8; also frames whose chroma planes are a single column / a single row
+                let (w, h) = match (ssi + pi + ci) % 4 {
+                    0 => (1usize << ss.0, 8usize),
+                    1 => (36, 1usize << ss.1),
+                    _ => (36, 8),
+                };
                 let cfg = YuvConfig { subsampling_x: ss.0, subsampling_y: ss.1, ..cfg444(m, full, n) };
                 let mut r2 = rng.clone();
                 let f: Frame<u16> = mk_frame(w, h, ss, 0, |_, _, _| r2.below(maxc) as u32);
@@ -483,13 +503,89 @@ fn layout_stratum(ctx: &Ctx, roundtrip: bool) {
             if let Some((_, ss, pad, x, y)) = lw.at {
                 ev::violation(
                     format!("C01|layout-decode|{m:?}|{}|n={n}", if full { "full" } else { "limited" }),
-                    format!("36x8 frame, subsampling {ss:?}, plane paddings {pad:?}: pixel ({x},{y}) is {:.3e} from the H.273 value of its (Y, U(x>>ss_x,y>>ss_y), V(..)) samples", lw.err),
+                    format!("multi-row frame (36x8, 1-chroma-column or 1-chroma-row), subsampling {ss:?}, plane paddings {pad:?}: pixel ({x},{y}) is {:.3e} from the H.273 value of its (Y, U(x>>ss_x,y>>ss_y), V(..)) samples", lw.err),
                     J::obj().set("kind", "layout").set("matrix", format!("{m:?}")).set("full", full).set("n", n).set("ss", [ss.0, ss.1]).set("pad", [pad.0, pad.1, pad.2]).set("x", x).set("y", y),
                 );
             }
         }
         worst.lock().unwrap().merge(&lw);
     });
+    // one thread, all configs in several seed-shuffled orders: a decode must not depend on what was decoded before it
+    if !roundtrip {
+        let mut rng = Rng::new(ctx.seed, 0x5E0_0001);
+        let mut seq_evals = 0u64;
+        for pass in 0..3 {
+            let mut order: Vec<usize> = (0..cfgs.len()).collect();
+            for i in (1..order.len()).rev() {
+                order.swap(i, rng.below(i as u64 + 1) as usize);
+            }
+            if pass == 0 {
+                // depth-major: consecutive decodes share depth and range but not the matrix
+                order.sort_by_key(|i| (cfgs[*i].2, cfgs[*i].1));
+            }
+            for ci in order {
+                let (m, full, n) = cfgs[ci];
+                let maxc = 1u64 << n;
+                let tri: Vec<[u32; 3]> = (0..24).map(|_| [rng.below(maxc) as u32, rng.below(maxc) as u32, rng.below(maxc) as u32]).collect();
+                let mut w = Worst::new();
+                let st = DecStats::default();
+                decode_check::<u16>(ci, (m, full, n), &tri, &mut w, &st, None);
+                if n == 8 {
+                    decode_check::<u8>(ci, (m, full, n), &tri, &mut w, &st, None);
+                }
+                seq_evals += tri.len() as u64;
+                if !(w.err <= TOL_C01) {
+                    if let Some(at) = w.at {
+                        ev::violation(
+                            format!("C01|decode-accuracy|sequence|{m:?}|{}|n={n}", if full { "full" } else { "limited" }),
+                            format!("decoding configs one after another on one thread (pass {pass}): |rgb - H.273| = {:.3e}", w.err),
+                            dec_case(&cfgs, &at).set("err", w.err).set("note", "depends on the preceding decodes: re-run the check with the same seed"),
+                        );
+                    }
+                }
+            }
+        }
+        ev::observe("sequential_order_passes", 3);
+        ev::add_evals(seq_evals);
+    }
+    // C08: transcode sequences on one thread: decode(A) -> encode(B) -> decode(B) -> encode(B) must reproduce the B image
+    if roundtrip {
+        let mut rng = Rng::new(ctx.seed, 0x5E0_0008);
+        let mut seq = 0u64;
+        let rounds = if ctx.flag("lite") { 200 } else { ctx.pick(2000, 20000) };
+        for _ in 0..rounds {
+            let (ma, fa, na) = cfgs[rng.below(cfgs.len() as u64) as usize];
+            // B shares the depth (so that the same storage type applies) but differs in matrix and/or range
+            let (mb, fb) = (rng.pick(&MATRICES), rng.coin());
+            let maxc = 1u64 << na;
+            let tri: Vec<[u32; 3]> = (0..7).map(|_| [rng.below(maxc) as u32, rng.below(maxc) as u32, rng.below(maxc) as u32]).collect();
+            let ya: Yuv<u16> = mk_yuv(&tri, cfg444(ma, fa, na));
+            let cb = cfg444(mb, fb, na);
+            let Ok(rgb_a) = Rgb::try_from(&ya) else { continue };
+            let Ok(yb) = Yuv::<u16>::try_from((&rgb_a, cb)) else { continue };
+            let Ok(rgb_b) = Rgb::try_from(&yb) else { continue };
+            let Ok(yb2) = Yuv::<u16>::try_from((&rgb_b, cb)) else { continue };
+            seq += 1;
+            let k = 1u16 << (na - 8);
+            for p in 0..3 {
+                for i in 0..tri.len() {
+                    let orig = yb.data()[p].p(i, 0);
+                    // yb holds only codes the encoder produced; limited-range codes outside the legal range cannot occur in it
+                    let exp = if fb { orig } else { orig.clamp(16 * k, if p == 0 { 235 * k } else { 240 * k }) };
+                    let got = yb2.data()[p].p(i, 0);
+                    if got != exp && !(fb && p > 0 && orig == 0 && got == 1) {
+                        ev::violation(
+                            format!("C08|transcode-sequence|{mb:?}|{}|n={na}", if fb { "full" } else { "limited" }),
+                            format!("after decoding a {ma:?} image and encoding it as {mb:?}, the {mb:?} image does not survive its own round trip: plane {p} sample {orig} came back {got}"),
+                            J::obj().set("kind", "transcode").set("from", format!("{ma:?}")).set("to", format!("{mb:?}")).set("n", na).set("note", "sequence-dependent: re-run the check with the same seed"),
+                        );
+                    }
+                }
+            }
+        }
+        ev::observe("transcode_sequences", seq);
+        ev::add_evals(seq * 21);
+    }
     ev::observe("layout_stratum_frames", frames.load(Relaxed));
     ev::observe("layout_stratum_pixels", pixels.load(Relaxed));
     if !roundtrip {
@@ -616,7 +712,14 @@ fn enc_inputs(rng: &mut Rng, m: MC, full: bool, n: u8, count: usize, every_k: bo
                 strata[3] += 1;
             }
             4 => {
-                out.push([rng.unit() as f32, rng.unit() as f32, rng.unit() as f32]);
+                if i % 16 == 4 {
+                    // almost-neutral pixels: a grey with perturbations of 1e-7 .. 1e-3 (chroma within a few codes of mid)
+                    let g = rng.unit();
+                    let s = 10f64.powf(-3.0 - 4.0 * rng.unit());
+                    out.push([g as f32, (g + (rng.unit() - 0.5) * s) as f32, (g + (rng.unit() - 0.5) * s) as f32]);
+                } else {
+                    out.push([rng.unit() as f32, rng.unit() as f32, rng.unit() as f32]);
+                }
                 strata[4] += 1;
             }
             _ => {
@@ -707,11 +810,21 @@ pub fn c02(ctx: &Ctx) {
             distinct.insert(hash_mix(ci as u64, crate::gen::hash_px(*p)));
         }
         let mut acc = EncAcc { worst: Worst::new(), hist: [0; 12], clamp_lo: [0; 3], clamp_hi: [0; 3], inrange: [0; 3] };
-        encode_check::<u16>(ci, cfg, &px, &mut acc);
-        let mut n_evals = px.len() as u64;
-        if n == 8 {
-            encode_check::<u8>(ci, cfg, &px, &mut acc);
-            n_evals *= 2;
+        // two image shapes: a width that is a multiple of 64 (plane stride == width, no row padding) and an odd width
+        let a_len = (px.len() / 2) & !63;
+        let (pa, pb) = px.split_at(a_len);
+        let pb = if pb.len() % 2 == 0 { &pb[1..] } else { pb };
+        let mut n_evals = 0u64;
+        for part in [pa, pb] {
+            if part.is_empty() {
+                continue;
+            }
+            encode_check::<u16>(ci, cfg, part, &mut acc);
+            n_evals += part.len() as u64;
+            if n == 8 {
+                encode_check::<u8>(ci, cfg, part, &mut acc);
+                n_evals += part.len() as u64;
+            }
         }
         evals.fetch_add(n_evals, Relaxed);
         if !(acc.worst.err <= 1.0) {
